@@ -16,7 +16,14 @@ PROPS["C14"] = dict(
     assumptions=["RFC 6793 counting of AS numbers is RFC 4271 9.1.2.2 + RFC 5065 (SET = 1, confederation segments = 0)",
                  "[SEQ a][SEQ b] and [SEQ a b] denote the same path",
                  "AS_PATHs have the RFC 5065 shape: confederation segments only as a leading run"],
-    must_count=["roundtrip_paths", "roundtrip_with_as4", "pairs", "pairs_as4_longer", "pairs_with_prepended_part", "aggregators_as4", "as4_path_sent"],
+    must_count=["roundtrip_paths", "roundtrip_with_as4", "pairs", "pairs_as4_longer", "pairs_with_prepended_part", "aggregators_as4", "as4_path_sent",
+                # unit "e2e" (real sessions with a 2-octet-AS speaker)
+                "e2e:c14:scenarios", "e2e:c14:nontrivial_scenarios", "e2e:c14:confederation", "e2e:c14:local-as-4-octet", "e2e:c14:to-old:routes", "e2e:c14:to-old:as4-path-sent",
+                "e2e:c14:to-old:with-4-octet-asn", "e2e:c14:to-old:reconstructed-equal", "e2e:c14:to-old:leading-confed-run", "e2e:c14:to-old:255-member-segment", "e2e:c14:to-old:set-segment",
+                "e2e:c14:to-old:aggregator", "e2e:c14:to-old:as4-aggregator-sent", "e2e:c14:from-old:routes", "e2e:c14:from-old:rib-path-equal", "e2e:c14:from-old:new-speaker-path-equal",
+                "e2e:c14:from-old:aggregator", "e2e:c14:from-old:class:chain", "e2e:c14:from-old:class:no-as4", "e2e:c14:from-old:class:as4-longer", "e2e:c14:from-old:class:as4-tail",
+                "e2e:c14:from-old:class:chain:confed-run", "e2e:c14:from-old:class:chain:leading-set"]
+               + ["e2e:c14:topology:n=%s,o=%s" % (a, b) for a in ("ebgp", "ibgp") for b in ("ebgp", "rrclient", "confed")],
     units=[dict(name="table", harness="t_table", files=["common_", "c14_"], run="TestVerifC14",
                 shards=dict(quick=16, thorough=16), timeout_s=dict(quick=600, thorough=5400)),
            dict(name="e2e", harness="t_server", files=["sim_", "e2e_"], run="TestVerifE2E_C14",
